@@ -33,16 +33,18 @@ Proof.
 Qed.
 Print Assumptions C01_roundtrip_datum_partial.
 
-(* inside a longer input: next_value reads exactly the printed text and leaves
-   what follows (end of input, a space or a closing parenthesis) unread *)
-Theorem C01_reads_exactly_partial : forall ryu alpha fast std_parse v fuel r D rest,
-  rt_ok alpha v -> N.of_nat (rdepth v) < D -> D <= 128 -> (length (print0 ryu v) + 16 <= fuel)%nat ->
-  ReaderProofs.at_bytes r (print0 ryu v ++ rest) -> delim_ok rest ->
+(* inside a longer input: after any whitespace and line comments, next_value
+   reads exactly the printed text and leaves what follows (end of input,
+   whitespace, a comment, or a parenthesis or bracket) unread *)
+Theorem C01_reads_exactly_partial : forall ryu alpha fast std_parse v fuel r D pre rest,
+  trivia pre -> rt_ok alpha v -> N.of_nat (rdepth v) < D -> D <= 128 ->
+  (length pre + length (print0 ryu v) + 16 <= fuel)%nat ->
+  ReaderProofs.at_bytes r (pre ++ print0 ryu v ++ rest) -> delim_ok rest ->
   exists r', next_value default_ro alpha fast std_parse fuel (mkp r D) = (POk (Some v), mkp r' D) /\
              ReaderProofs.at_bytes r' rest /\ rk r' = rk r.
 Proof.
-  intros ryu alpha fast std_parse v fuel r D rest Hok HD HD' Hf Ha Hr. rewrite print0_is_txt in *.
-  exact (proj1 (next_value_reads_text ryu alpha fast std_parse v) fuel r D [] rest (or_introl eq_refl) Hok HD HD' Hf Ha Hr).
+  intros ryu alpha fast std_parse v fuel r D pre rest Hpre Hok HD HD' Hf Ha Hr. rewrite print0_is_txt in *.
+  exact (proj1 (next_value_reads_text ryu alpha fast std_parse v) fuel r D pre rest Hpre Hok HD HD' Hf Ha Hr).
 Qed.
 Print Assumptions C01_reads_exactly_partial.
 
